@@ -9,7 +9,7 @@ from common import Rng
 from gen_prog import INT, arr_type, arr_val, ival
 
 LEVEL = "proof"
-THEOREMS = ["C16_keys", "C16_keys_rendered", "C16_frame", "C16_errors", "C16_usable", "C16_generated_good", "C16_facts_matter", "C16_source_label",]
+THEOREMS = ["C16_source_label_cell", "C16_keys", "C16_keys_rendered", "C16_frame", "C16_errors", "C16_usable", "C16_generated_good", "C16_facts_matter", "C16_source_label",]
 RULE = (
     "pairs / triples of trees with array leaves checked against PyTree[L, 'T'] (and 'S') inside one context or "
     "one decorated call, L containing '?n' / '*?v' / '?n ?m' / 'b ?n' alone or inside Union, tuple and "
@@ -18,7 +18,7 @@ RULE = (
     "the same array OBJECT at several leaf positions; the probes again after four kinds of raising checks; "
     "non-trivial = >=2 leaves and >=2 trees; distinct by (leaf type, trees, sizes)"
 )
-TRUSTED = ["Lean 4 kernel", "harness/extract.py: recognition of the set/clear protocol of the two flags", "jax.tree_util flatten order", "harness/translate_tree.py (recognisers of the statements of _MetaPyTree.__instancecheck__ / _check) and the interpreter Model/TreeDsl.lean (flatten and the structure block are primitives)"]
+TRUSTED = ["harness/translate_storage.py (recognisers of the statements of the label / flag functions of _storage.py) and the interpreter Model/CellDsl.lean", "Lean 4 kernel", "harness/extract.py: recognition of the set/clear protocol of the two flags", "jax.tree_util flatten order", "harness/translate_tree.py (recognisers of the statements of _MetaPyTree.__instancecheck__ / _check) and the interpreter Model/TreeDsl.lean (flatten and the structure block are primitives)"]
 
 P = {"op": "print"}
 
